@@ -1,9 +1,61 @@
-(* C10 - placeholder; theorems are added as proofs land *)
-From Coq Require Import ZArith List.
-From NutsV Require Import model.Protocol.
+(* C10 - Parallel sampling is deterministic and independent of scheduling.
+   Statements over the labelled transition system model/Protocol.v: `reach n total s` = s is the
+   state after some event history accepted by `step` (any interleaving of the user, the controller
+   and n chains, any user script).  The content of draw k of chain i is a function of (settings,
+   seed, i, k) only: chain-private state is touched by that chain's own events alone (frame), and
+   the draw numbers a chain records are exactly 0,1,2,... in order whatever the schedule. *)
+From Coq Require Import ZArith List Bool Arith.
+From NutsV Require Import model.Protocol proofs.Protocol_facts.
 Import ListNotations.
-Example C10_model_runs :
+
+Theorem C10_replayed_histories_are_reachable :
+  forall (n total : nat) (evs : list ev) (s : st),
+    replay (init n total) evs 0 = inl s -> reach n total s.
+Proof. exact replay_reach. Qed.
+Print Assumptions C10_replayed_histories_are_reachable.
+
+(* in every reachable state, for every schedule, pause/resume timing, number of cores and of
+   other chains: chain c has recorded exactly the draws 0 .. c_draw-1, in order *)
+Theorem C10_schedule_independent :
+  forall (n total : nat) (s : st) (c : chain),
+    reach n total s -> In c (s_chains s) -> c_rec c = seq 0 (c_draw c) /\ c_draw c <= total.
+Proof. exact I1_records. Qed.
+Print Assumptions C10_schedule_independent.
+
+(* an event of chain i changes no component of any other chain and nothing of controller/user *)
+Theorem C10_frame :
+  forall (s : st) (i : nat) (e : cev) (s' : st),
+    chain_step s i e = Some s' ->
+    (forall j, j <> i -> nth_error (s_chains s') j = nth_error (s_chains s) j) /\
+    length (s_chains s') = length (s_chains s) /\
+    s_ctl s' = s_ctl s /\ s_user s' = s_user s /\ s_cmd_open s' = s_cmd_open s /\
+    s_total s' = s_total s /\ s_paused s' = s_paused s /\ s_ctl_ok s' = s_ctl_ok s /\
+    (s_results s' = s_results s \/ exists ok, s_results s' = s_results s ++ [ok]).
+Proof. exact chain_step_frame. Qed.
+Print Assumptions C10_frame.
+
+Theorem C10_chain_count_constant :
+  forall (n total : nat) (s : st), reach n total s -> length (s_chains s) = n /\ s_total s = total.
+Proof. exact I3_chains_total. Qed.
+Print Assumptions C10_chain_count_constant.
+
+(* random streams: chain i uses ChaCha8 stream (i + 1) mod 2^64; streams of different chains
+   differ and none equals the controller's stream 0 (for i < 2^64 - 1) *)
+Theorem C10_stream_injective :
+  forall i j : N, (i < 18446744073709551615)%N -> (j < 18446744073709551615)%N -> i <> j ->
+    ((i + 1) mod 18446744073709551616 <> (j + 1) mod 18446744073709551616)%N /\
+    ((i + 1) mod 18446744073709551616 <> 0)%N.
+Proof.
+  intros i j Hi Hj Hij.
+  rewrite !N.mod_small by (apply N.lt_le_trans with (m := (18446744073709551615 + 1)%N);
+                           [apply N.add_lt_mono_r; assumption | apply N.le_refl]).
+  split; [intro H; apply Hij; apply N.add_cancel_r in H; exact H|].
+  intro H. destruct i; discriminate H.
+Qed.
+Print Assumptions C10_stream_injective.
+
+Example C10_nonvacuous :
   replay_log 1 1 [(2, 0, 0, 0); (2, 1, 0, 0); (2, 4, 0, 0); (2, 5, 0, 0); (2, 7, 0, 0); (2, 8, 0, 1)]%Z
   = [[1; 1; 8; 1]]%Z.
 Proof. vm_compute. reflexivity. Qed.
-Print Assumptions C10_model_runs.
+Print Assumptions C10_nonvacuous.
